@@ -134,7 +134,7 @@ func (s *scopeGen) function(lvl int, tag string) (ast.FuncLit, *fnInfo) {
 		n := s.names[r.Intn(len(s.names))]
 		wf, wr := s.fresh("zh"), s.fresh("zr")
 		ss = append(ss, ast.Assign{Name: wf, Value: ast.FuncLit{Body: ast.While{
-			Cond: ast.Binary{Op: ">=", L: ast.Unary{Op: "#", X: call("toa", name(n))}, R: ast.IntLit{V: 0}},
+			Cond: ast.Binary{Op: "!=", L: call("toa", name(n)), R: ast.StrLit{V: "nil"}},
 			Body: ast.Block{Stmts: []ast.Node{
 				ast.Assign{Name: n, Value: ast.Binary{Op: "+", L: call("toa", name(n)), R: ast.StrLit{V: "+w"}}},
 				ast.Return{X: name(n)}}}}}},
